@@ -2,9 +2,9 @@
 use crate::runner::{Ctx, Report};
 use crate::sut::{self, Outcome, SVal, Session};
 
-pub const CONTEXTS: [&str; 19] = [
+pub const CONTEXTS: [&str; 23] = [
     "body-last", "if-then", "if-else", "begin", "let", "let*", "cond-clause", "cond-else", "cond=>", "case-clause", "case-else", "and", "or",
-    "when", "unless", "apply", "apply-apply", "apply-renamed", "apply-prefixed",
+    "when", "unless", "apply", "apply-apply", "apply-renamed", "apply-prefixed", "if-variable-test", "if-non-boolean-test", "when-variable-test", "and-variable-test",
 ];
 pub const SHAPES: [&str; 6] = ["self", "mutual-2", "mutual-3", "through-parameter", "variadic", "closure-returned"];
 pub const SHAPES_ALL: [&str; 21] = [
@@ -30,6 +30,11 @@ pub fn wrap(ctx: &str, x: &str) -> String {
         "or" => format!("(or #f {})", x),
         "when" => format!("(when #t 0 {})", x),
         "unless" => format!("(unless #f 0 {})", x),
+        // the test is a variable holding a true value / an expression whose true value is not #t
+        "if-variable-test" => format!("(if truth {} 0)", x),
+        "if-non-boolean-test" => format!("(if (memv 2 '(1 2 3)) {} 0)", x),
+        "when-variable-test" => format!("(when one 0 {})", x),
+        "and-variable-test" => format!("(and truth one {})", x),
         "apply" => format!("(apply (lambda () {}) '())", x),
         "apply-apply" => format!("(apply apply (lambda () {}) '(()))", x),
         "apply-renamed" => format!("(funcall (lambda () {}) '())", x),
@@ -49,11 +54,12 @@ pub fn wrap_all(ctxs: &[&str], call: &str) -> String {
 /// apply is also known to the program under two other names
 const IMPORTS: &str = "(import (rename (only (scheme base) apply) (apply funcall)) (prefix (only (scheme base) apply) p:))";
 const STEP: &str = "(define (step acc i) (floor-remainder (+ (* acc 3) i) 1009))";
+const TRUTHS: &str = "(define truth #t) (define one 1)";
 
 /// program text for a loop of the given shape whose recursive call sits in the given tail contexts
 pub fn program(shape: &str, ctxs: &[&str], n: u32) -> Vec<String> {
     let w = |call: &str| wrap_all(ctxs, call);
-    let mut forms = vec![IMPORTS.to_string(), STEP.to_string()];
+    let mut forms = vec![IMPORTS.to_string(), format!("{} {}", STEP, TRUTHS)];
     match shape {
         "self" => {
             forms.push(format!("(define (loop i acc) (probe i) (if (= i 0) acc {}))", w("(loop (- i 1) (step acc i))")));
@@ -297,7 +303,7 @@ pub fn run(ctx: &Ctx) {
          argument, closure-returned, internal definition, a fresh closure per iteration, apply arriving as a parameter and handed to itself, a looping body with internal \
          variable definitions / with an internal procedure definition, the tail call forwarded by (define (forward f . args) (apply f args)), a three-procedure cycle through \
          one-call bodies, a tail call whose operator is an if / cond / and / or expression, a tail call whose operator \
-         expression counts its own evaluations) x composition of tail contexts (19: body-last, if-then, if-else, \
+         expression counts its own evaluations, a loop without operands whose state lives in globals) x composition of tail contexts (23: body-last, if-then, if-else, if / when / and with a variable or a non-boolean true value as test, \
          begin, let, let*, cond clause/else/=>, case clause/else, and, or, when, unless, apply, apply handed to apply, \
          apply imported under another name / with a prefix) x N; the loop calls (probe i) \
          once per iteration, which records the real machine stack address and the thread's live heap bytes. Quick: every \
